@@ -63,6 +63,14 @@ static void exercise(const std::string& cid, const std::string& pre, CommPkg* c,
       c->communicate_T(yi, res, 1, f, f, 0); emit_all(cid, pre + "RM", ints_str(res)); }
     { std::vector<int> res(n, -1); std::function<int(int, int)> f = vsel_func;
       c->communicate_T(ysel, res, 1, f, f, -1); emit_all(cid, pre + "RL", ints_str(res)); }
+    // max with negative owner entries and contributions equal to 0 (the node-aware package combines duplicates with the
+    // init function, so the same reduction and a neutral element below every value are passed)
+    { std::vector<int> yz(m), res(n, -1000); for (int j = 0; j < m; j++) yz[j] = ((colmap[j] + g_rank + j) % 3 == 0) ? 0 : -(g_rank + 1) * 10 - j;
+      std::function<int(int, int)> f = vmax_func;
+      if (mode == 0) c->communicate_T(yz, res, 1, f); else c->communicate_T(yz, res, 1, f, f, -1000000); emit_all(cid, pre + "RMN", ints_str(res)); }
+    { std::vector<double> yz(m), res(n, -1000.0); for (int j = 0; j < m; j++) yz[j] = ((colmap[j] + g_rank + j) % 3 == 0) ? 0.0 : -(g_rank + 1) * 10.0 - j;
+      std::function<double(double, double)> f = [](double a, double b) { return b > a ? b : a; };
+      if (mode == 0) c->communicate_T(yz, res, 1, f); else c->communicate_T(yz, res, 1, f, f, -1000000.0); emit_all(cid, pre + "RMND", nums_str(res)); }
     { std::vector<double> yb(2 * m), res(2 * n, 0.0); for (int j = 0; j < m; j++) { yb[2 * j] = yi[j]; yb[2 * j + 1] = 0.5 * yi[j]; }
       c->communicate_T(yb, res, 2); emit_all(cid, pre + "RB", nums_str(res)); }
 }
